@@ -562,7 +562,7 @@ def _status_assigned_calls(fn, bid, i, sv):
     return out
 
 
-def _events(prog, fn, el, v, sv, assigned=()):
+def _events(prog, fn, el, v, sv, assigned=(), pos=None):
     """Ordered events of one element for variable v:
        ('acq', callee, k, assigned_to_status) | ('alloc', name) | ('ref', name) | ('null', macro) | ('borrow',) |
        ('release', name, line) | ('transfer',) | ('use', name) | ('unknown', why)"""
@@ -643,6 +643,9 @@ def _events(prog, fn, el, v, sv, assigned=()):
                     fk = lvalue_key(r, fn)
                     if fk and "->" in fk and fk.split("->")[0] in {p_["n"] for p_ in fn.params}:
                         ev.append(("borrow", fk))
+                    elif _moved_from_owner(prog, fn, r0, v, pos):
+                        # v = w, where w holds what an owning producer has just handed out (res = f(.., &w); ...; v = w): the object moves
+                        ev.append(("alloc", "move from %s" % r0["n"], n.get("ln")))
                     else:
                         ev.append(("borrow",))
             elif is_var(r, v) or (isinstance(r, dict) and r.get("k") == "cast" and is_var(r, v)):
@@ -682,6 +685,31 @@ def _events(prog, fn, el, v, sv, assigned=()):
     return ev
 
 
+def _moved_from_owner(prog, fn, r0, v, pos):
+    """r0 is a plain local w != v, and every definition of w that reaches this assignment is the out-argument of an owning producer
+    (so on this path w holds an object this function owns), and w is not released or used as an owner anywhere else: `v = w` moves it."""
+    if pos is None or not (isinstance(r0, dict) and r0.get("k") == "var" and r0.get("s") == "local" and r0.get("n") != v):
+        return False
+    w = r0["n"]
+    defs = fn.defs_at(pos[0], pos[1], w)
+    if not defs:
+        return False
+    for d in defs:
+        if d[0] == "param":
+            return False
+        _v, kind, node = fn.def_info(d)
+        if kind != "out":
+            return False
+        call, k = node
+        if not call.get("fn") or producer_kind(prog, call["fn"], k) != "own":
+            return False
+    # w itself must never be released (then it, not v, is the owner)
+    for b, i, c in fn.calls():
+        if is_release(c.get("fn")) and c["a"] and is_var(strip(c["a"][0]), w):
+            return False
+    return True
+
+
 def _analyse_var(prog, fn, v, sv, rets):
     # quick filter: is there any acquisition at all?
     evs = {}
@@ -689,7 +717,7 @@ def _analyse_var(prog, fn, v, sv, rets):
     for bid, blk in fn.blocks.items():
         lst = []
         for i_, el in enumerate(blk["elems"]):
-            e = _events(prog, fn, el["e"], v, sv, _status_assigned_calls(fn, bid, i_, sv))
+            e = _events(prog, fn, el["e"], v, sv, _status_assigned_calls(fn, bid, i_, sv), pos=(bid, i_))
             lst.append(e)
             for x in e:
                 if x[0] in ("acq", "alloc", "ref") or (x[0] == "borrow" and len(x) > 1):
